@@ -104,6 +104,11 @@ def run(ck, pid="C02"):
         from checks import C02c
         ck.layer = "C02c"
         C02c.run_extra(ck)
+        # fourth layer: the ADF free-space manager (AdfAlloc.v): every real ADFI_file_malloc / ADFI_file_free replayed
+        # through the extracted model, free lists decoded from the file, file-walk oracle (checks/C02d.py, notes/C02d.md)
+        from checks import C02d
+        ck.layer = "C02d"
+        C02d.run_extra(ck)
         ck.layer = None
 
 
@@ -112,6 +117,9 @@ def replay(ck, path):
     if r.get("layer") == "C02c":
         from checks import C02c
         return C02c.replay(ck, path)
+    if r.get("layer") == "C02d":
+        from checks import C02d
+        return C02d.replay(ck, path)
     if r.get("layer") == "C02b" or r.get("mode") in ("unit", "api") or "broken_correspondence" in r:
         from checks import C02b
         return C02b.replay(ck, path)
